@@ -72,9 +72,39 @@ def _sub(node, env):
     return G.substitute(node, env, recursive=False) if env else clone(node)
 
 
+_MUTATORS = {'append', 'extend', 'insert', 'add', 'update', 'pop', 'remove', 'clear', 'sort', 'reverse', 'setdefault', 'popitem',
+             'discard', 'appendleft', 'extendleft', 'popleft', 'put', 'get_nowait', 'put_nowait'}
+
+
+def mutated_names(body) -> set:
+    """Local names whose object is changed in place somewhere in the statements: receiver of a mutating method, base of a
+    subscript / attribute store, target of an augmented assignment."""
+    out = set()
+    for st in body:
+        for n in ast.walk(st):
+            if isinstance(n, ast.Call) and isinstance(n.func, ast.Attribute) and n.func.attr in _MUTATORS and isinstance(n.func.value, ast.Name):
+                out.add(n.func.value.id)
+            elif isinstance(n, (ast.Subscript, ast.Attribute)) and isinstance(n.ctx, (ast.Store, ast.Del)) and isinstance(n.value, ast.Name):
+                out.add(n.value.id)
+    return out
+
+
+def _fresh_container(v) -> bool:
+    if isinstance(v, (ast.List, ast.Dict, ast.Set, ast.ListComp, ast.DictComp, ast.SetComp)):
+        return True
+    return isinstance(v, ast.Call) and isinstance(v.func, ast.Name) and v.func.id in ('list', 'dict', 'set', 'deque', 'OrderedDict', 'defaultdict')
+
+
+_MUTATED = set()
+
+
 def _bind(target, value, env, op: _Opaque, events, node, step):
     if isinstance(target, ast.Name):
-        env[target.id] = value
+        if target.id in _MUTATED and _fresh_container(value):
+            # a container that is changed in place later: the name stands for the object, not for its initial contents
+            env[target.id] = ast.Name(id=target.id, ctx=ast.Load())
+        else:
+            env[target.id] = value
         events.append(Event('assign', node, value, [target.id], step))
     elif isinstance(target, (ast.Tuple, ast.List)):
         if isinstance(value, (ast.Tuple, ast.List)) and len(value.elts) == len(target.elts) \
@@ -103,9 +133,12 @@ def _clobber(target, env, op):
 
 
 def sym_paths(body, limit=4000, init_env=None, fi=None, inliner=None) -> List[SymPath]:
-    inl = inliner if inliner is not None else INLINER
+    inl = None if inliner is False else (inliner if inliner is not None else INLINER)
+    global _MUTATED
+    mutated_here = mutated_names(body)
     out = []
     for p in enumerate_paths(body, limit):
+        _MUTATED = mutated_here          # (re-set per path: the helper inliner runs nested symbolic executions)
         sp = SymPath(p)
         env: Dict[str, ast.AST] = dict(init_env or {})
         op = _Opaque()
